@@ -12,9 +12,9 @@ RULE = ('renders of symbols of all 44 sizes (quick: random subset per run, every
         'independent format reader (container well-formedness: signature, chunk order and CRCs, zlib stream length, filter '
         'types, palette/tRNS, Netpbm headers and raster lengths, XBM/XPM structure) and every pixel / cell is compared with '
         'the grid predicted from qr.matrix; scale < 1 must be refused; distinct = (kind, size, scale, border, colour classes)')
-ASSUMPTIONS = ['refmodel/raster.py (independent readers), refmodel/colors.py (independent colour parser, 43 CSS names cross-checked once)',
+ASSUMPTIONS = ['refmodel/raster.py (independent readers), refmodel/colors.py (independent colour parser, 49 CSS names cross-checked once)',
                'zlib and struct of CPython',
-               'PNG with dark and light both None, PAM/PPM/XPM colours with alpha, float alpha for PNG are outside the documented domain and not generated',
+               'PAM/PPM/XPM colours with alpha are outside the documented domain and not generated',
                'held = held on the renders listed here']
 REQUIRED = ['evaluations', 'renders_checked', 'kind:png', 'kind:pbm', 'kind:pam', 'kind:ppm', 'kind:xbm', 'kind:xpm', 'kind:txt',
             'kind:ans', 'kind:compact', 'scale_lt_1_refused', 'png_depth:1', 'png_transparent']
@@ -64,8 +64,6 @@ def gen_cases(tier, seed):
             if r < 0.75:
                 kw['dark'] = rnd_color(rng, alpha=True, none=True)
                 kw['light'] = rnd_color(rng, alpha=True, none=True)
-                if kw['dark'] is None and kw['light'] is None:
-                    kw['light'] = 'white'
             if rng.random() < 0.2:
                 kw['dpi'] = rng.choice([72, 150, 300, 600, 96.0])
             if rng.random() < 0.3:
